@@ -298,7 +298,7 @@ theorem extend_refines_prefix (c : Cfg) (hc : c.assertions = true) (s : Store) (
   simp only [step]
   split
   · exact forest_extend_prefix hc p cs s f k hw (forest s) (List.Perm.refl _)
-  · exact ⟨0, Nat.zero_le _, fun h => by cases h, List.Perm.refl _⟩
+  · exact ⟨0, Nat.zero_le _, fun h => (by cases h), List.Perm.refl _⟩
 
 -- the second member is a non-node: the first one has been moved, the call fails
 example : (step demoCfg demo (.extend 5 [2, 9, 3] .none 0)).2 = .rej ∧
